@@ -211,7 +211,10 @@ class Pipe():
         return self._endpoints[1]
 
 
-class Queue(queue.Queue):
+# SimpleQueue is implemented in C: unlike queue.Queue (pure Python on top of threading.Condition) none of its
+# code can be interrupted half-way by the exception which `terminate` raises asynchronously in a thread worker -
+# an exception landing inside e.g. Condition.__enter__/__exit__ leaves the queue's mutex locked forever
+class Queue(getattr(queue, 'SimpleQueue', queue.Queue)):
     def close(self):
         pass
 
